@@ -29,9 +29,17 @@ const (
 	defaultLockFile = "/tmp/dc4bc_storage_lock"
 )
 
+const (
+	// scanner limits shared by the line counter and the reader: a line that
+	// the reader accepts must also be counted, otherwise offsets repeat
+	scannerInitialBufSize = 64 * 1024
+	scannerMaxLineSize    = 1024 * 1024
+)
+
 func countLines(r io.Reader) uint64 {
 	var count uint64
 	fileScanner := bufio.NewScanner(r)
+	fileScanner.Buffer(make([]byte, 0, scannerInitialBufSize), scannerMaxLineSize)
 
 	for fileScanner.Scan() {
 		count++
@@ -119,8 +127,8 @@ func (fs *FileStorage) GetMessages(offset uint64) ([]storage.Message, error) {
 		return nil, fmt.Errorf("failed to seek a offset to the start of a data file:  %w", err)
 	}
 	scanner := bufio.NewScanner(fs.dataFile)
-	buf := make([]byte, 0, 64*1024)
-	scanner.Buffer(buf, 1024*1024)
+	buf := make([]byte, 0, scannerInitialBufSize)
+	scanner.Buffer(buf, scannerMaxLineSize)
 	for scanner.Scan() {
 		if offset > 0 {
 			offset--
